@@ -90,3 +90,30 @@ Proof.
     + split; [reflexivity|]. split; [apply acts_refl|reflexivity].
   - unfold sleep_reset, sleep_new. cbn [deadline handle sid fst snd]. split; [reflexivity|]. split; [apply acts_refl|reflexivity].
 Qed.
+
+(* with distinct ids in a slot, removal by id takes out exactly that id *)
+Lemma rm_in_iff id es a : NoDup es -> (In a (rm id es) <-> In a es /\ a <> id).
+Proof.
+  intros Hnd. unfold rm. destruct (ents_remove id es) as [e|] eqn:E.
+  - revert e E. induction es as [|x r IH]; intros e E; cbn [ents_remove] in E; [discriminate|].
+    inversion Hnd as [|? ? Hx Hr]; subst. destruct (x =? id) eqn:Ex.
+    + injection E as <-. assert (x = id) by lia. subst x. split.
+      * intros Hin. split; [right; exact Hin|intros ->; contradiction].
+      * intros [[->|Hin] Hne]; [contradiction Hne; reflexivity|exact Hin].
+    + destruct (ents_remove id r) as [r'|] eqn:Er; [|discriminate]. injection E as <-. specialize (IH Hr r' eq_refl). split.
+      * intros [->|Hin]; [split; [left; reflexivity|lia]|]. apply IH in Hin. split; [right; exact (proj1 Hin)|exact (proj2 Hin)].
+      * intros [[->|Hin] Hne]; [left; reflexivity|right; apply IH; split; assumption].
+  - split; [intros Hin; split; [exact Hin|]|intros [Hin _]; exact Hin].
+    intros ->. clear Hnd. induction es as [|x r IH]; [contradiction|]. cbn [ents_remove] in E.
+    destruct (x =? id) eqn:Ex; [discriminate|]. destruct (ents_remove id r); [discriminate|].
+    destruct Hin as [->|Hin]; [lia|exact (IH eq_refl Hin)].
+Qed.
+
+Lemma rm_nodup id es : NoDup es -> NoDup (rm id es).
+Proof.
+  intros Hnd. unfold rm. destruct (ents_remove id es) as [e|] eqn:E; [|exact Hnd].
+  revert e E. induction es as [|x r IH]; intros e E; cbn [ents_remove] in E; [discriminate|].
+  inversion Hnd as [|? ? Hx Hr]; subst. destruct (x =? id); [injection E as <-; exact Hr|].
+  destruct (ents_remove id r) as [r'|] eqn:Er; [|discriminate]. injection E as <-. constructor; [|exact (IH Hr r' eq_refl)].
+  intros Hin. apply Hx. exact (ents_remove_in _ _ _ _ Er Hin).
+Qed.
